@@ -287,7 +287,9 @@ func (p *Prog) loopInfo(fn *ssa.Function) *loopInfo {
 			for _, in := range b.Instrs {
 				switch x := in.(type) {
 				case *ssa.Store:
-					if a := rootAlloc(x.Addr); a != nil && !li.escapes[a] {
+					if a := rootAlloc(x.Addr); a != nil && ld.blocks[a.Block()] {
+						// allocated inside the loop: a new object in every iteration
+					} else if a != nil && !li.escapes[a] {
 						ld.stored[a] = true
 					} else if ia, ok := x.Addr.(*ssa.IndexAddr); ok && isSliceOfScalars(ia.X.Type()) {
 						ld.arrs = true
@@ -297,6 +299,9 @@ func (p *Prog) loopInfo(fn *ssa.Function) *loopInfo {
 				case *ssa.Call:
 					if !p.callIsPure(x.Common()) {
 						ld.wild = true
+						if os.Getenv("GOVC_DEBUG") != "" {
+							fmt.Fprintf(os.Stderr, "loop in %s wild because of call %s\n", fn.Name(), p.calleeName(x.Common()))
+						}
 					}
 				case *ssa.Defer, *ssa.Go, *ssa.MapUpdate, *ssa.Send, *ssa.Select:
 					ld.wild = true
@@ -448,7 +453,7 @@ func (p *Prog) callIsPure(c *ssa.CallCommon) bool {
 		}
 		return true
 	}
-	if con, ok := p.CS.ByName[n]; ok && con.Pure {
+	if con, ok := p.CS.ByName[n]; ok && (con.Pure || (con.HasMod && len(con.Modifies) == 0)) {
 		return true
 	}
 	return p.CS.isPure(n)
